@@ -136,6 +136,10 @@ impl SimWriter {
   pub fn acked_before_guid(&self, g: GUID) -> Option<i64> {
     self.kit.writer.verif_acked_before(g)
   }
+  /// the whole participant of reader `r` is lost (lease expiry): `Writer::participant_lost`
+  pub fn lose_participant_of(&mut self, r: u8) {
+    self.kit.writer.participant_lost(rguid(r).prefix);
+  }
   pub fn lose_reader(&mut self, r: u8) {
     self.kit.writer.reader_lost(rguid(r));
   }
